@@ -69,17 +69,23 @@ func trimValue(value []byte, tailLength int) ([]byte, error) {
 // SaveKeyValue stores in dirtyData the data keys "touched"
 // It does not care if the data is really dirty as calling this check here will be sub-optimal
 func (tdaw *TrackableDataTrie) SaveKeyValue(key []byte, value []byte) error {
-	var identifier []byte
 	lenValue := uint64(len(value))
 	if lenValue > core.MaxLeafSize {
 		return data.ErrLeafSizeTooBig
 	}
 
-	if lenValue != 0 {
-		identifier = append(key, tdaw.identifier...)
+	if lenValue == 0 {
+		tdaw.dirtyData[string(key)] = make([]byte, 0)
+		return nil
 	}
 
-	tdaw.dirtyData[string(key)] = append(value, identifier...)
+	// the stored value must not share memory with the buffers of the caller
+	valueWithSuffix := make([]byte, 0, len(value)+len(key)+len(tdaw.identifier))
+	valueWithSuffix = append(valueWithSuffix, value...)
+	valueWithSuffix = append(valueWithSuffix, key...)
+	valueWithSuffix = append(valueWithSuffix, tdaw.identifier...)
+
+	tdaw.dirtyData[string(key)] = valueWithSuffix
 	return nil
 }
 
